@@ -53,8 +53,8 @@ def holeStates (frag : Bool) (s : St) : Option (List St) :=
       if s.nargs == 0 then some [{ s with mode := .word }, { s with mode := .word, nargs := 1 }]
       else some [s, { s with mode := .word }]
     | .word => some (if s.var then [s, { s with var := false }] else [s])
-    | .dq => some (if s.var then [s, { s with var := false }] else [s])
-    | .sq => some (if s.var then [s, { s with var := false }] else [s])
+    | .dq => some [{ s with var := false }, { s with var := true }]
+    | .sq => some [{ s with var := false }, { s with var := true }]
     | .need => some [s]
     | .comment => some [s]
 
